@@ -49,6 +49,7 @@ def batch(args):
 
     def body(ctx):
         ec.reset_problem(prob, ctx)
+        prob.h.return_array = args.get('returns') == 'ndarray'
         inds, init = [], []
         for i in range(b):
             ind = Individual(ec.sym_vector(ctx, 'd%d' % i, prob))
@@ -226,6 +227,10 @@ def configs(tier):
             out.append({'name': 'batch-b2-dim1-crit%d-con0-stored-precision%d' % (ci, prec), 'task': 'batch',
                         'args': {'dim': 1, 'criteria': CRITS[ci], 'ncon': 0, 'b': 2, 'precision': prec},
                         'weight': 16, 'engine': {'validate': 30}})
+    for ci in ((3,) if tier == 'quick' else (1, 2, 3, 5)):
+        out.append({'name': 'batch-b2-dim1-crit%d-con0-objective-returns-ndarray' % ci, 'task': 'batch',
+                    'args': {'dim': 1, 'criteria': CRITS[ci], 'ncon': 0, 'b': 2, 'returns': 'ndarray', 'precision': 2},
+                    'weight': 16, 'engine': {'validate': 30}})
     nv = 3 if tier == 'quick' else 4
     out.append({'name': 'sweep-%d' % nv, 'task': 'sweep', 'args': {'dim': 2, 'nvec': nv, 'criteria': ('minimize', 'maximize')},
                 'weight': 5})
